@@ -1,8 +1,16 @@
 //! Kani harnesses over the real fibre channels (built with --cfg excsn_fibre_verif).
-#![allow(dead_code, unused_imports, unused_macros)]
+#![allow(dead_code, unused_imports, unused_macros, unused_variables, unused_mut)]
 
 pub mod common;
 #[cfg(kani)]
+pub mod seq;
+#[cfg(kani)]
+mod flavours;
+#[cfg(kani)]
 mod spsc_seq;
 #[cfg(kani)]
+mod seq_gen;
+#[cfg(kani)]
 mod spsc_conc;
+#[cfg(kani)]
+mod locks;
